@@ -130,10 +130,16 @@ def parse_vc(ident, text):
             elif key in ("rewrite", "rewrite!"):
                 # rewrite: /regex/ => replacement     (`rewrite!`: the construct must be present - a ghost-only annotation
                 # (T12 closure contract) whose loss would leave the proof without a needed fact: 0 matches = lost anchor)
+                # `rewrite!: /rx/ => repl  when /guard/`: mandatory only while the function text still matches guard
+                # (e.g. "contains a closure at all"); with the guard gone the construct is gone and Verus decides.
+                guard = None
+                mg = re.match(r"(.*\S)\s+when\s+/(.*)/\s*$", val)
+                if mg and key.endswith("!"):
+                    val, guard = mg.group(1), mg.group(2)
                 m = re.match(r"/(.*)/\s*=>\s*(.*)$", val)
                 if not m:
                     raise ScanError("bad rewrite in %s" % ident)
-                fs.rewrites.append((m.group(1), m.group(2), key.endswith("!"))); sec = None
+                fs.rewrites.append((m.group(1), m.group(2), key.endswith("!"), guard)); sec = None
             elif key in ("requires", "ensures"):
                 sec = key
             elif key == "decreases":
@@ -677,8 +683,10 @@ def add_fn(unit, fs):
             whole = new
             unit.log.append("T7 %s: rule `%s` applied %d time(s) [%s]" % (where, name, cnt, note))
     whole = apply_t8(whole, where, unit.log)
-    for rx, rep, must in [(r[0], r[1], (r[2] if len(r) > 2 else False)) for r in fs.rewrites]:
+    for rx, rep, must, guard in [(r[0], r[1], (r[2] if len(r) > 2 else False), (r[3] if len(r) > 3 else None)) for r in fs.rewrites]:
         cnt = len(re.findall(rx, whole))
+        if must and guard and not re.search(guard, whole):
+            must = False
         if not cnt and must:
             raise ScanError("lost anchor: mandatory rewrite /%s/ in %s has no match" % (rx, fs.ident))
         if not cnt:
